@@ -227,6 +227,7 @@ class Verifier:
         self.counter = {}
         self.stats = {}
         self.entry_pcs = {}      # (file, qualname) -> path conditions right after the preconditions were assumed
+        self.exit_pcs = {}       # (file, qualname) -> path conditions of the normal exits (reachability witness)
         self.unsupported = []
 
     # ---------------------------------------------------------------- repository lookups
@@ -601,6 +602,8 @@ class Verifier:
         for s1, out, env, old in outcomes:
             self.check_exit(s1, out, env, old, cls)
             results["normal" if out[0] != "raise" else "raise"] += 1
+            if out[0] != "raise":
+                self.exit_pcs.setdefault((cls.file, cls.qualname), []).append(list(s1.pc))
         self.stats[(cls.file, cls.qualname)] = dict(paths=len(outcomes), **results)
         return outcomes
 
